@@ -13,6 +13,7 @@ import (
 	"encoding/binary"
 	"encoding/json"
 	"fmt"
+	"io"
 	"time"
 
 	"github.com/blevesearch/mmap-go"
@@ -146,7 +147,7 @@ func ScanFooter(options *StoreOptions, fref *FileRef, fileName string,
 			}
 
 			n, err := fref.file.ReadAt(footerBeg, pos)
-			if err != nil {
+			if err != nil && err != io.EOF {
 				return nil, err
 			}
 
@@ -168,19 +169,23 @@ func ScanFooter(options *StoreOptions, fref *FileRef, fileName string,
 			return nil, err
 		}
 		if version != StoreVersion {
-			return nil, fmt.Errorf("store: version mismatch, "+
-				"current: %v != found: %v", StoreVersion, version)
+			pos -= int64(StorePageSize) // Not a footer of ours, keep scanning.
+			continue
 		}
 
 		var length uint32
 		if err := binary.Read(footerBegBuf, StoreEndian, &length); err != nil {
 			return nil, err
 		}
+		if int64(length) < int64(footerBegLen+footerEndLen) {
+			pos -= int64(StorePageSize) // Not a footer of ours, keep scanning.
+			continue
+		}
 
 		data := make([]byte, int64(length)-int64(footerBegLen))
 
 		n, err := fref.file.ReadAt(data, pos+int64(footerBegLen))
-		if err != nil {
+		if err != nil && err != io.EOF {
 			return nil, err
 		}
 
@@ -196,8 +201,8 @@ func ScanFooter(options *StoreOptions, fref *FileRef, fileName string,
 				return nil, err
 			}
 			if offset != pos {
-				return nil, fmt.Errorf("store: offset mismatch, "+
-					"wanted: %v != found: %v", offset, pos)
+				pos -= int64(StorePageSize) // Not a footer of ours, keep scanning.
+				continue
 			}
 
 			var length1 uint32
@@ -205,15 +210,16 @@ func ScanFooter(options *StoreOptions, fref *FileRef, fileName string,
 				return nil, err
 			}
 			if length1 != length {
-				return nil, fmt.Errorf("store: length mismatch, "+
-					"wanted: %v != found: %v", length1, length)
+				pos -= int64(StorePageSize) // Not a footer of ours, keep scanning.
+				continue
 			}
 
 			f := &Footer{refs: 1, fileName: fileName, filePos: offset}
 
 			err = json.Unmarshal(data[:content], f)
 			if err != nil {
-				return nil, err
+				pos -= int64(StorePageSize) // Torn or foreign footer, keep scanning.
+				continue
 			}
 
 			// json.Unmarshal would have just loaded the map.
